@@ -494,7 +494,10 @@ def go_check(text: str) -> Dict[str, Any]:
                 j += 1
                 continue
             errors.append(f"{what}: undefined identifier {v} at line {ln}")
-            refs.append(v)
+            if nxt == "." and j + 2 < len(tokens) and tokens[j + 2][0] == "ident":
+                refs.append(f"{v}.{tokens[j + 2][1]}")
+            else:
+                refs.append(v)
             j += 1
         return refs
 
